@@ -236,6 +236,20 @@ def check(prog, rep):
            f"{sp.simplify(chiral) if chiral is not None else '?'}; with 'negative if chiral < 0' the measured torsion is +phi, counter-clockwise about "
            "atom3 - atom2: a right-handed rotation by +delta about that axis (R2) increases it by delta", w6)
 
+    # the snap-to-planar window of dihedral(): |cos +- 1| < eps reports exactly 0/180; its angular half-width acos(1 - eps)
+    # must stay below the property's 0.05 degree tolerance (constant folding + a monotone function of the constant)
+    import math
+    cconsts = prog.module_constants("config.py")
+    snaps = [n for n in ast.walk(dh) if isinstance(n, ast.Compare) and "scal" in U(n.left) and isinstance(n.ops[0], (ast.Lt, ast.LtE))]
+    eps_vals = [try_fold(n.comparators[0], cconsts) for n in snaps]
+    if snaps and all(isinstance(e, (int, float)) and 0 <= e < 1 for e in eps_vals):
+        width = max(math.degrees(math.acos(1.0 - e)) for e in eps_vals)
+        r4.add("dihedral-snap-window", width <= 0.05,
+               f"dihedral() reports exactly 0/180 when |cos -/+ 1| < {sorted(set(eps_vals))}: a window of {width:.4f} degrees; the torsion set by "
+               f"set_dihedral_angle (requested - measured) is off by up to that much ({'within' if width <= 0.05 else 'EXCEEDS'} the 0.05 degree tolerance)", w6)
+    elif snaps:
+        raise AnalysisError("dihedral(): snap thresholds do not fold to constants")
+
     # ------------------------------------------------------------------ R5
     r5 = rep.rule("R5", "the placed point is rotmol(d - mean(template), U) + mean(structure)", floor=5)
     ce = F["center"]
